@@ -45,7 +45,10 @@ def is_long_date_spec(long_date: str) -> bool:
     return (
         len(long_date) == 10
         and {long_date[4], long_date[7]} == {"-"}
-        and all(ch.isdigit() for ch in long_date.replace("-", ""))
+        and all(
+            ch.isdigit()
+            for ch in long_date[:4] + long_date[5:7] + long_date[8:]
+        )
     )
 
 
